@@ -1762,8 +1762,10 @@ class VM:
             offset = int(offset)
 
             if isinstance(source, (JSArray, JSTypedArray)):
-                for i in range(source.length):
-                    arr.set_index(offset + i, source.get_index(i))
+                # Read everything first: the source may be a view of the same buffer
+                values = [source.get_index(i) for i in range(source.length)]
+                for i, value in enumerate(values):
+                    arr.set_index(offset + i, value)
             return UNDEFINED
 
         methods = {
